@@ -35,8 +35,9 @@ MANIFEST = {
             "pairwise disjoint or nested (C04_laminar, both modes); -O tid returns the input stream with only tid "
             "fields changed, same order, nothing dropped (C04_tid_only); the final tid lies in {tid0} + private "
             "chain(pid,tid0), chains avoid every tid seen in the pid and each other, so distinct source lanes stay "
-            "distinct (C04_final_tid_in_chain, C04_no_merge); -O drop returns a sub-list (C04_drop); the sort stage "
-            "is a permutation (C04_sort_stage_perm). The model is tied to the code on every run by differential "
+            "distinct (C04_final_tid_in_chain, C04_chains_private, C04_no_merge); -O drop returns a sub-list and keeps "
+            "every non-slice (C04_drop); the sort stage is a permutation (C04_sort_stage_perm); on per-lane ordered "
+            "input the assertion never fires and drop mode never raises (C04_no_err_partial). The model is tied to the code on every run by differential "
             "testing inside Coq (exhaustive small interval families + random large ones + end-to-end runs).",
     "note": "partial: C04_no_err of DESIGN (ordered input needing <= 5 extra lanes never raises) is proved only as "
             "C04_no_err_partial / C04_no_err_sorted_partial: on per-lane ts-ordered, non-negative input (discharged "
@@ -166,14 +167,16 @@ def max_depth(slices):
     return best
 
 
-def lane_sorted_by_ts(case):
+def lane_sorted_by_ts(case, with_dur=False):
+    """ph-X events of every lane arrive by ts ascending (with_dur: and dur descending on equal ts)"""
     last = {}
     for isx, pid, tid, ts, dur, uid in case["events"]:
         if not isx:
             continue
-        if last.get((pid, tid), ts) > ts:
+        k = (ts, -dur) if with_dur else (ts, 0)
+        if last.get((pid, tid), k) > k:
             return False
-        last[(pid, tid)] = ts
+        last[(pid, tid)] = k
     return True
 
 
@@ -248,8 +251,9 @@ def oracle(case, obs):
         lost_nx = [u for u in lost if orig[u]["ph"] != "X"]
         if lost_nx:
             fail("slice_lost", "drop mode drops only ph X slices", {"uids": lost_nx})
-        # a dropped slice must partially overlap some input slice of its lane (nothing is dropped without a reason)
-        for u in lost:
+        # a dropped slice must partially overlap some input slice of its lane (nothing is dropped without a reason;
+        # true when lanes arrive by ts asc / dur desc: an equal-start shorter-first arrival legitimately drops)
+        for u in (lost if (case["presort"] or lane_sorted_by_ts(case, with_dur=True)) else []):
             o = orig[u]
             if o["ph"] != "X":
                 continue
@@ -326,16 +330,17 @@ def gen_exhaustive(ctx):
             cases.append(mk_case("DROP", 5, True, 1.0, evs))
             if n <= n1d - 1:
                 cases.append(mk_case("TID", 1, True, 0.5, evs))
-    # two lanes (three in the thorough tier, second pid): <= 4 intervals on 0..4 (thorough 0..5)
-    T2, n2 = ctx.pick((4, 4), (5, 4))
+    # two lanes (three in the thorough tier, one of them in a second pid): <= 3 intervals on 0..4 and exactly 4 on
+    # 0..3 (thorough: <= 4 on 0..4)
     lanes = ctx.pick([(0, 3), (0, 4)], [(0, 3), (0, 4), (1, 4)])
-    items = [(p, t, s, e) for (p, t) in lanes for s, e in intervals(T2)]
-    for n in range(2, n2 + 1):
-        for fam in itertools.combinations_with_replacement(items, n):
-            if len({(p, t) for p, t, _, _ in fam}) < 2:
-                continue
-            evs = [[True, p, t, s, e - s, i] for i, (p, t, s, e) in enumerate(fam)]
-            cases.append(mk_case("TID", 1, True, 1.0, evs))
+    for T2, sizes in ctx.pick([(4, (2, 3)), (3, (4,))], [(4, (2, 3, 4))]):
+        items = [(p, t, s, e) for (p, t) in lanes for s, e in intervals(T2)]
+        for n in sizes:
+            for fam in itertools.combinations_with_replacement(items, n):
+                if len({(p, t) for p, t, _, _ in fam}) < 2:
+                    continue
+                evs = [[True, p, t, s, e - s, i] for i, (p, t, s, e) in enumerate(fam)]
+                cases.append(mk_case("TID", 1, True, 1.0, evs))
     return cases
 
 
@@ -517,7 +522,7 @@ def run(ctx):
     r = ctx.rng
     corpus, corpus_e2e = load_corpus()
     exh = gen_exhaustive(ctx)
-    rnd = [gen_random_case(r, big=(i % 10 == 0)) for i in range(ctx.pick(3000, 50000))]
+    rnd = [gen_random_case(r, big=(i % 10 == 0)) for i in range(ctx.pick(2000, 30000))]
     cases = corpus + exh + rnd
     terms, oracle_failures, seen, nontriv = [], [], set(), 0
     dist = {"mode": {}, "n_events": {}, "ms": {}, "presort": {}, "scale": {}, "outcome": {}, "moved_slices": {},
@@ -552,7 +557,7 @@ def run(ctx):
     n_oracle_fail = len(raw_fail)
     bad, extras, secs = coqrun.run_cases(
         "C04", "From AiuModel Require Import Overlap.", "case_in", "run_val", terms,
-        extra="Definition nt := Eval vm_compute in (count_if nontrivial cases).\nOpen Scope nat_scope.\nPrint nt.", shard=1500, timeout=900)
+        extra="Definition nt := Eval vm_compute in (count_if nontrivial cases).\nOpen Scope nat_scope.\nPrint nt.", shard=600, timeout=900)
     mism = [{"name": "correspondence Overlap.run_val vs EventSortingContext + OverlapDetectionContext",
              "case": cases[j], "impl": terms[j][1][:600]} for j in bad[:5]]
     # kind-diverse, shrunk failures
@@ -572,7 +577,7 @@ def run(ctx):
 
     # end to end
     e2e_cases = list(corpus_e2e)
-    e2e_cases += [gen_e2e_case(r) for _ in range(ctx.pick(150, 2000))]
+    e2e_cases += [gen_e2e_case(r) for _ in range(ctx.pick(120, 2000))]
     work = tempfile.mkdtemp(prefix="c04_", dir=ctx.work)
     e2e_terms, e2e_fail = [], []
     try:
@@ -606,7 +611,7 @@ def run(ctx):
 
     return {
         "evaluations": len(cases) + len(e2e_cases), "distinct_nontrivial": nontriv,
-        "rule": "kernel cases = corpus + all multisets of <= %s intervals on one lane / <= 4 on two%s lanes of a small "
+        "rule": "kernel cases = corpus + all multisets of <= %s intervals on one lane / <= 4 (0..3; <= 3 on 0..4) on two%s lanes of a small "
                 "integer grid (TID with short chains so exhaustion is reached, DROP, zero-length slices) + random "
                 "families (<= 60 events, <= 3 pids, adjacent/interleaved tids, staircases beyond the lane limit, ties, "
                 "touching, instant events mixed in, presorted or raw, max_tid_streams 0..5, dyadic time scales) "
